@@ -513,6 +513,15 @@ class Escape:
         out.merge(self.expr_sources(e, ctx))
         cls = self.exc_name(f.module, e)
         if cls is None:
+            # `raise exc_class()` where the class is a parameter of the routine: every class a call site passes (or the default)
+            c_ = e.func if isinstance(e, ast.Call) else e
+            if isinstance(c_, ast.Name) and c_.id in f.param_names():
+                pcs = self._param_classes(f, c_.id)
+                if pcs:
+                    for pc in pcs:
+                        out.add(Src(pc, "explicit", (hop,), self._origin(f, norm(st))))
+                    return out
+        if cls is None:
             # raising a computed exception object (e.g. `raise to_exc(exc)`): unknown class
             cls = "Exception"
         tags = {"explicit"}
@@ -608,8 +617,7 @@ class Escape:
                 if n is None and isinstance(val, ast.Name) and val.id in g.param_names() and _depth > 0:
                     # handed on from the caller's own parameter
                     more = self._param_classes(g, val.id, _depth - 1) if g is not f else []
-                    if not more and g is not f:
-                        unresolved = True
+                    # a caller whose own parameter is bound nowhere (its call sites were normalised away) contributes nothing
                     out.extend(x for x in more if x not in out)
                 elif n is None:
                     unresolved = True
